@@ -94,7 +94,7 @@ var c13Witness = []string{
 
 func checkC13(c *Ctx) (string, bool, []string) {
 	r := c.R
-	rule := fmt.Sprintf("every statement accepted from (a) all clause subsets of all 44 kinds, (b) random payloads, (c) the 'odd but accepted' generator (calls with any argument count, time() dimensions with 0-3 arguments of any kind, zero / negative intervals, duration arithmetic with fractional, zero and huge operands, wildcards / regexes / DISTINCT in argument positions, nested subqueries) and (d) a fixed witness list, each through %d public operations, every operation on a fresh re-parse. Non-trivial = statement accepted; distinct by text.", len(Ops))
+	rule := fmt.Sprintf("every statement accepted from (a) all clause subsets of all 44 kinds, (b) random payloads, (c) the 'odd but accepted' generator (calls with any argument count, time() dimensions with 0-3 arguments of any kind, zero / negative intervals, duration arithmetic with fractional, zero and huge operands, wildcards / regexes / DISTINCT in argument positions, nested subqueries) (d) a fixed witness list and (e) byte/lexeme-mutated statements that the parser still accepts, each through %d public operations, every operation on a fresh re-parse. Non-trivial = statement accepted; distinct by text.", len(Ops))
 	assume := []string{"a recovered panic inside any listed operation is a violation; errors are fine", "operations: " + opNames()}
 	if c.Replay != nil {
 		c13One(c, replayStr(c, "input"), replayInt(c, "idx"), map[string]int64{})
@@ -140,6 +140,26 @@ func checkC13(c *Ctx) (string, bool, []string) {
 		}
 		r.MergeCounts(local)
 	})
+	// (e) mutated texts that the parser still accepts: statements nobody would
+	// write on purpose
+	nm := c.N(60000, 2000000)
+	mon.Parallel(nm, c.Workers, func(i int) {
+		local := map[string]int64{}
+		rg := mon.NewRng(c.Seed, "c13.mut", i)
+		a := genCase(c.Seed, "c13.mut.base", i, -1, -1, gen.Opts{Odd: i%2 == 0, MaxDepth: 2}, "random").Text
+		b := genCase(c.Seed, "c13.mut.base", i+7919, -1, -1, gen.Opts{MaxDepth: 2}, "random").Text
+		text := mutateText(rg, a, b)
+		if _, err, pan, _, _ := parseQuery1(text); pan || err != nil {
+			local["mutated.rejected"]++
+			r.MergeCounts(local)
+			return
+		}
+		local["mutated.accepted"]++
+		c13One(c, text, 3000000+i, local)
+		r.DistinctStr(text)
+		r.MergeCounts(local)
+	})
+	r.Require(r.Counter("mutated.accepted") > 0, "no mutated text was accepted")
 	for _, op := range Ops {
 		r.Require(r.Counter("op."+op.Name) > 0, "operation "+op.Name+" never run")
 	}
